@@ -989,12 +989,16 @@ def seq_method(ip, o, name, args, kw, ctx):
     if name == "decode":
         if s.kind != 'bytes':
             _raise("AttributeError", "decode")
-        if args and args[0] not in ("utf-8", "utf8", "ascii"):
-            raise _uns("decode codec")
-        return seqops.decode_ascii_or_utf8(s, ctx)
+        codec = args[0] if args else kw.get("encoding", "utf-8")
+        if not isinstance(codec, str) or codec.lower().replace("_", "-") not in ("utf-8", "utf8", "ascii", "us-ascii") or len(args) > 1 or "errors" in kw:
+            raise _uns("decode codec / error handler")
+        return seqops.decode_ascii_or_utf8(s, ctx, ascii_only=codec.lower().replace("_", "-") in ("ascii", "us-ascii"))
     if name == "encode":
         if s.kind != 'str':
             _raise("AttributeError", "encode")
+        codec = args[0] if args else kw.get("encoding", "utf-8")
+        if not isinstance(codec, str) or codec.lower().replace("_", "-") not in ("utf-8", "utf8") or len(args) > 1 or "errors" in kw:
+            raise _uns("encode codec / error handler")
         return seqops.encode_utf8(s, ctx)
     if name == "format":
         return seqops.str_format(ip, o, args, kw, ctx)
@@ -1285,6 +1289,11 @@ def install(ip):
     e["textwrap.wrap"] = B("wrap", b_wrap)
     e["re.match"] = B("re.match", b_re_match)
     e["re.compile"] = B("re.compile", b_re_compile)
+    e["sys.byteorder"] = I.HostChoice(["little", "big"])
+    import errno as _errno
+    for _n in dir(_errno):
+        if _n.startswith("E") and isinstance(getattr(_errno, _n), int):
+            e["errno." + _n] = getattr(_errno, _n)
     e["contextlib.suppress"] = B("suppress", b_suppress)
     e["functools.reduce"] = B("reduce", b_reduce)
     e["operator.add"] = B("operator.add", b_op_add)
